@@ -2,6 +2,9 @@ package authz
 
 import (
 	"context"
+	"net/http"
+
+	oidcv1 "github.com/istio-ecosystem/authservice/config/gen/go/v1/oidc"
 
 	envoy "github.com/envoyproxy/go-control-plane/envoy/service/auth/v3"
 
@@ -11,6 +14,7 @@ import (
 func init() {
 	verifHarnesses["VerifC09_LogoutVsInFlightCheck"] = VerifC09_LogoutVsInFlightCheck
 	verifHarnesses["VerifC09_LogoutStep"] = VerifC09_LogoutStep
+	verifHarnesses["VerifC09_LogoutRedirectConfiguredOrDiscovered"] = VerifC09_LogoutRedirectConfiguredOrDiscovered
 }
 
 // VerifC09_LogoutStep: sequential part. A logout request from an arbitrary state (with store
@@ -99,4 +103,36 @@ func VerifC09_LogoutVsInFlightCheck() {
 	err := env.h.Process(context.Background(), app, respZ)
 	vn.Cover("C09/concurrent-history", true)
 	vn.Assert("C09/no-ok-after-logout", vn.And(err == nil, !kitOK(respZ)))
+}
+
+// VerifC09_LogoutRedirectConfiguredOrDiscovered: "redirects to the configured (or discovered)
+// end-session URI". With a discovery URI, resolving the endpoints must leave a configured
+// logout redirect alone whatever the provider publishes, fall back to the published
+// end_session_endpoint only when none is configured, and fail when there is neither.
+func VerifC09_LogoutRedirectConfiguredOrDiscovered() {
+	configured := vn.StringIn("configured-logout-redirect", 3, alphaID)
+	published := vn.StringIn("published-end-session-endpoint", 3, alphaID)
+	doc := vn.NewJSON("discovery", 3)
+	vn.JSONStr(doc, "authorization_endpoint", 1, "https://idp/auth")
+	vn.JSONStr(doc, "token_endpoint", 1, "https://idp/token")
+	vn.JSONStr(doc, "jwks_uri", 1, "https://idp/keys")
+	pubKind := vn.Choice("end-session-endpoint-published", 2)
+	if pubKind == 0 {
+		published = ""
+	} else {
+		vn.Assume(published != "")
+	}
+	vn.JSONStr(doc, "end_session_endpoint", pubKind, published)
+	client := &http.Client{Transport: &kitDiscoveryRT{body: vn.JSONText(doc)}}
+	cfg := &oidcv1.OIDCConfig{ConfigurationUri: "https://idp/.well-known/openid-configuration", Logout: &oidcv1.LogoutConfig{Path: "/logout", RedirectUri: configured}}
+	err := loadWellKnownConfig(client, cfg)
+	switch {
+	case configured != "":
+		vn.Cover("C09/configured-logout-redirect-with-discovery", published != "")
+		vn.Assert("C09/configured-logout-redirect-survives-discovery", vn.And(err == nil, cfg.GetLogout().GetRedirectUri() == configured))
+	case published != "":
+		vn.Assert("C09/discovered-end-session-endpoint-used-when-none-configured", vn.And(err == nil, cfg.GetLogout().GetRedirectUri() == published))
+	default:
+		vn.Assert("C09/no-end-session-uri-at-all-is-an-error", err != nil)
+	}
 }
